@@ -12,7 +12,7 @@ import (
 // C10: every API honours Longest() under every strategy
 func TestLongestAcrossStrategies(t *testing.T) {
 	pats := []string{`a|ab`, `(a|ab)`, `(a|ab)(c|bcd)?`, `a+?`, `x(?:a|ab)`, `[a-c]+?d|[a-c]+`, `\d+?|\d+x`, `foo|foobar`, `(?:foo|foobar)\d?`, `.*?b|.*`, `\w+?@|\w+@\w+`, `^(?:a|ab)`, `(?:a|ab)$`,
-		`\b(?:a|ab)`, `[a-z]+?\.txt|[a-z]+\.txtx`, `(?i)foo|foobar`, `a*?`, `(?:a|ab)+?`, `\d{1,2}?|\d+`, `one|oneself|two`, `foo|foobar|a1|b2|c3|d4|e5|f6|g7|h8`, `(?:foo|foobar|a1|b2|c3|d4|e5|f6|g7|h8)x?`, `(a|ab)(c|bcd)?`, `(\w{2,8}?|\w+x)+`}
+		`\b(?:a|ab)`, `[a-z]+?\.txt|[a-z]+\.txtx`, `(?i)foo|foobar`, `a*?`, `(?:a|ab)+?`, `\d{1,2}?|\d+`, `one|oneself|two`, `foo|foobar|a1|b2|c3|d4|e5|f6|g7|h8`, `(?:foo|foobar|a1|b2|c3|d4|e5|f6|g7|h8)x?`, `(a|ab)(c|bcd)?`, `(\w{2,8}?|\w+x)+`, `(foo)|(foobar)`, `foo|foobar|bazqux`, `(?:foo|foobar|quxx)`, `foo|foob|fooba|foobar|a1|b2|c3|d4|e5|f6|g7|h8|i9|j0|k1|l2|m3|n4|o5|p6|q7|r8|s9|t0|u1|v2|w3|x4|y5|z6|aa|bb|cc|dd`}
 	hs := []string{"ab", "abcd", "xab", "aab abd", "12x 345", "foobar1", "foobar", "ab@cd", "zz abc.txtx", "oneself two", "aaa"}
 	seen := map[string]int{}
 	for _, p := range pats {
